@@ -8,7 +8,10 @@
  * names, coefficients, logical column, nonzero count) + representation invariant + the conditional contract
  * C05 needs: cache_ok only if every deleted row was basic with pi <= 0 and the cached pi/slack are the survivors
  * in order; basis_ok only if every deleted row (column) was basic (non-basic).
- * On an invalid index: non-zero, nothing changed.  BOUND: NS = 2, NR = 2, at most 2 indices deleted (possibly the same one twice). */
+ * On an invalid index: non-zero, nothing changed.  BOUND: NS = 2, NR = 2, at most 2 indices deleted (possibly the same one twice).
+ * Variant LAYOUT_FIXED + NR=3 + NUM=n (del/delrows_b3_n1, _n2): three rows, the matrix concrete (empty structural columns,
+ * structurals first), list length a compile-time constant -- the basis / pricing-norm / cache repacking with a surviving
+ * row BEHIND a deleted one and with non-ascending lists, which two rows cannot show. */
 #include "lib_contracts.h"
 struct qsv_ghost qsv_g;
 int g_sinfo_freed, g_load_calls;
@@ -35,7 +38,9 @@ static void build(void)
 	int j, k, r, i, pos = 0, colof[NC], isrow[NC], ext[NC];
 	O = qsv_alloc(sizeof *O); A = &O->A;
 	O->nrows = NR; O->nstruct = NS; O->ncols = NC; O->rowsize = NR; O->colsize = NC; O->structsize = NS; O->rA = 0; O->sinfo = 0; O->nzcount = 0;
-#ifdef LAYOUT_SMALL
+#ifdef LAYOUT_FIXED
+	for (i = 0; i < NC; i++) colof[i] = i;	/* structurals first; the matrix is concrete (empty structural columns): the group is about the basis / norm / cache repacking */
+#elif defined(LAYOUT_SMALL)
 	{ int lf = nondet_bool(); for (i = 0; i < NC; i++) colof[i] = lf ? (i < NS ? NR + i : i - NS) : i; }	/* structurals first or logicals first */
 #else
 	for (i = 0; i < NC; i++) { colof[i] = pick(0, NC - 1); for (k = 0; k < i; k++) ASSUME(colof[k] != colof[i]); }
@@ -58,18 +63,26 @@ static void build(void)
 			A->matcnt[i] = 1; A->matind[pos] = r; qsv_setnum(A->matval[pos], lcoef[r]); pos++; O->nzcount++;
 			qsv_setnum(O->obj[i], 0); qsv_setnum(O->lower[i], 0); qsv_setnum(O->upper[i], lupv[r]);
 		} else {
+#ifdef LAYOUT_FIXED
+			int cnt = 0; j = ext[i];
+#else
 			int cnt = pick(0, NR); j = ext[i];
+#endif
 			A->matcnt[i] = cnt;
 			if (cnt == 0) A->matind[pos++] = 1;
 			for (k = 0; k < NR; k++) if (k < cnt) { int row = pick(0, NR - 1), v = qsv_nondet_payload(); ASSUME(!S[row][j] && v != 0); A->matind[pos] = row; qsv_setnum(A->matval[pos], v); pos++; D[row][j] = v; S[row][j] = 1; O->nzcount++; }
 			objv[j] = qsv_nondet_payload(); lov[j] = qsv_nondet_payload(); upv[j] = qsv_nondet_payload();
 			qsv_setnum(O->obj[i], objv[j]); qsv_setnum(O->lower[i], lov[j]); qsv_setnum(O->upper[i], upv[j]);
 		}
-#ifndef LAYOUT_SMALL
+#if !defined(LAYOUT_SMALL) && !defined(LAYOUT_FIXED)
 		pos += pick(0, 1);
 #endif
 	}
+#ifdef LAYOUT_FIXED
+	{ const int fr = 1; A->matsize = pos + fr; A->matfree = fr; }
+#else
 	{ int fr = pick(0, 2); A->matsize = pos + fr; A->matfree = fr; }
+#endif
 	for (j = 0; j < NS; j++) { cname[j] = malloc(2); __CPROVER_assume(cname[j] != 0); O->colnames[j] = cname[j]; if (has_int) { imark[j] = nondet_bool(); O->intmarker[j] = (char) imark[j]; } }
 	for (r = 0; r < NR; r++) { rname[r] = malloc(2); __CPROVER_assume(rname[r] != 0); O->rownames[r] = rname[r]; rhsv[r] = qsv_nondet_payload(); qsv_setnum(O->rhs[r], rhsv[r]);
 		sensev[r] = "LGER"[pick(0, 3)]; O->sense[r] = sensev[r]; if (has_range) { rngv[r] = qsv_nondet_payload(); qsv_setnum(O->rangeval[r], rngv[r]); } }
@@ -119,7 +132,12 @@ void harness(void)
 		if (nondet_bool()) { C = qsv_alloc(sizeof *C); C->nstruct = NS; C->nrows = NR; C->x = qsv_numarray(NS); C->rc = qsv_numarray(NS); C->pi = qsv_numarray(NR); C->slack = qsv_numarray(NR);
 			for (r = 0; r < NR; r++) { piv[r] = qsv_nondet_payload(); slv[r] = qsv_nondet_payload(); qsv_setnum(C->pi[r], piv[r]); qsv_setnum(C->slack[r], slv[r]); } }
 	}
-	num = pick(0, 2); del[0] = pick(0, NR + 1) - 1; del[1] = pick(0, NR + 1) - 1;
+#ifdef NUM
+	num = NUM;	/* compile-time list length */
+#else
+	num = pick(0, 2);
+#endif
+	del[0] = pick(0, NR + 1) - 1; del[1] = pick(0, NR + 1) - 1;
 	if (num == 2 && del[0] == del[1]) valid = 0;	/* a row / column listed twice is an invalid argument (the counts would be reduced twice for one deletion) */
 #if defined(FN_delrows)
 	for (i = 0; i < 2; i++) if (i < num && (del[i] < 0 || del[i] >= NR)) valid = 0;
@@ -156,7 +174,14 @@ void harness(void)
 		}
 		if (num == 0) ASSERT(bok == 1 && cok == 1, "C05: deleting nothing keeps basis and cache");
 	}
+#ifdef NUM
+	COVER_MUST(rv == 0 && cok == 1 && has_rn, "cache_kept");
+#if NUM == 2
+	COVER_MUST(rv == 0 && cok == 1 && del[0] > del[1], "descending_list_cache_kept");
+#endif
+#else
 	COVER_MUST(rv == 0 && num == 1 && cok == 1, "cache_kept");
+#endif
 #elif defined(FN_delcols)
 	for (i = 0; i < 2; i++) if (i < num && (del[i] < 0 || del[i] >= NS)) valid = 0;
 	rv = mpq_ILLlib_delcols(lp, B, num, del, &bok);
